@@ -37,6 +37,8 @@ structure Cfg where
   attrOpt : Attr → Bool
   /-- `db_session(optimistic=...)` of the sessions of thread `s` -/
   sessOpt : Sid → Bool
+  /-- the primary keys of the rows of the table, in the order a full scan returns them (no insert / delete in this model) -/
+  objs : List Obj := []
 
 inductive Status | loaded | modified | updated
   deriving DecidableEq, Repr
@@ -267,6 +269,9 @@ def fetchRow (σ : State) (s : Sid) (o : Obj) (as : List Attr) (fu : Bool) : Opt
   | some os2 =>
     some (σ.withSess s { ss with objs := upd ss.objs o os2, forUpd := if fu then upd ss.forUpd o true else ss.forUpd })
 
+/-- the SELECT list of a query over the entity whose criteria use `a`: non-lazy columns and `a` itself -/
+def selAttrs (cfg : Cfg) (a : Attr) : List Attr := cfg.attrs.filter (fun b => !cfg.lazy b || b == a)
+
 /-- [Attribute.__get__] on an object whose `_vals_` holds the attribute: mark the read, hand `f value` to the application -/
 def getAttr (cfg : Cfg) (σ : State) (s : Sid) (o : Obj) (a : Attr) (f : Val → Val) : State × Out :=
   let ss := σ.sess s
@@ -285,12 +290,43 @@ def loadAttr (cfg : Cfg) (s : Sid) (o : Obj) (a : Attr) (f : Val → Val) (σ1 :
     goes through `_db_set_` and then [_set_rbits] marks `a` as read (`rbits & ~wbits`, bit 0 for a volatile attribute) -/
 def findInDb (cfg : Cfg) (s : Sid) (o : Obj) (a : Attr) (v : Val) (σ1 : State) : State × Out :=
   if view σ1 s o a = v then
-    match fetchRow σ1 s o (cfg.attrs.filter (fun b => !cfg.lazy b || b == a)) false with
+    match fetchRow σ1 s o (selAttrs cfg a) false with
     | none => (failSess cfg σ1 s, ⟨.unrepeatableRead, none⟩)
     | some σ2 =>
       if (((σ2.sess s).objs o).vals a).isSome then getAttr cfg σ2 s o a (fun _ => 1)
       else (σ2, ⟨.ok (some 1), none⟩)
   else (σ1, ⟨.ok (some 0), none⟩)
+
+/-- [_fetch_objects], the loop over the result rows: `_get_from_identity_map_(pk, 'loaded', for_update)` + `_db_set_` per row;
+    `none` = UnrepeatableReadError -/
+def fetchRows (s : Sid) (as : List Attr) (fu : Bool) : List Obj → State → Option State
+  | [], σ => some σ
+  | o :: r, σ =>
+    match fetchRow σ s o as fu with
+    | none => none
+    | some σ' => fetchRows s as fu r σ'
+
+/-- [_set_rbits] for one object and the attribute used in the query: `obj._rbits_ |= rbits & ~wbits` (bit 0 when volatile) -/
+def markOne (cfg : Cfg) (σ : State) (s : Sid) (o : Obj) (a : Attr) : State :=
+  let ss := σ.sess s
+  let os := ss.objs o
+  if (os.vals a).isSome then σ.withSess s { ss with objs := upd ss.objs o (os.read cfg a) } else σ
+
+/-- [_set_rbits] over the fetched objects (end of `_fetch_objects(..., used_attrs)`) -/
+def markRows (cfg : Cfg) (s : Sid) (a : Attr) : List Obj → State → State
+  | [], σ => σ
+  | o :: r, σ => markRows cfg s a r (markOne cfg σ s o a)
+
+/-- the value handed to the application for a list of objects (the set of their primary keys) -/
+def maskOf (l : List Obj) : Val := l.foldl (fun acc o => acc + (2 : Int) ^ o) 0
+
+/-- [Query._actual_fetch] for `select(x for x in E if x.a == v)` (optionally `.for_update()`), query-result cache missed:
+    every row the connection sees with `a = v` is fetched, then `_set_rbits(objects, used_attrs = {a})` -/
+def selectInDb (cfg : Cfg) (s : Sid) (a : Attr) (v : Val) (fu : Bool) (σ1 : State) : State × Out :=
+  let hit := cfg.objs.filter (fun o => view σ1 s o a == v)
+  match fetchRows s (selAttrs cfg a) fu hit σ1 with
+  | none => (failSess cfg σ1 s, ⟨.unrepeatableRead, none⟩)
+  | some σ2 => (markRows cfg s a hit σ2, ⟨.ok (some (maskOf hit)), none⟩)
 
 /-- [SessionCache.commit] after the flush: COMMIT when in a transaction, `for_update.clear()`, `immediate = True` -/
 def commitTxn (σ : State) (s : Sid) : State :=
@@ -303,6 +339,7 @@ inductive Action
   | fetch (o : Obj) (as : List Attr)      -- E.get_by_sql('SELECT id, <as> FROM e WHERE id = o'): re-reads the row
   | read (o : Obj) (a : Attr)             -- obj.a
   | find (o : Obj) (a : Attr) (v : Val)   -- E.get(id=o, a=v): 1 = found, 0 = None
+  | select (a : Attr) (v : Val) (forUpdate : Bool)   -- select(x for x in E if x.a == v)[.for_update()][:] (result cache missed)
   | write (o : Obj) (a : Attr) (v : Val)  -- obj.a = v
   | flush                                 -- flush()
   | commit                                -- commit() inside the session
@@ -340,6 +377,7 @@ def step (cfg : Cfg) (σ : State) (s : Sid) : Action → State × Out
       if (os.vals a).isSome then getAttr cfg σ s o a (fun x => if x = v then 1 else 0)
       else query cfg σ s false (loadAttr cfg s o a (fun x => if x = v then 1 else 0))
     else query cfg σ s false (findInDb cfg s o a v)
+  | .select a v fu => query cfg (wake σ s) s fu (selectInDb cfg s a v fu)
   | .write o a v =>
     let ss := σ.sess s
     let os := ss.objs o
